@@ -1738,7 +1738,11 @@ def subset_to_blocks(
     # two cohorts can select the same blocks (the index is an outer product over the axes):
     # the reindexer distinguishes them
     name = "groupby-cohort-" + tokenize(array, index, reindexer)
-    new_keys = array._key_array[index]
+    # outer indexing along every axis: mixing slices and np.ix_ arrays would move the advanced axes first
+    outer = tuple(
+        np.arange(n)[k] if isinstance(k, slice) else np.asarray(k).reshape(-1) for k, n in zip(index, array.numblocks)
+    )
+    new_keys = array._key_array[np.ix_(*outer)]
 
     squeezed = tuple(np.squeeze(i) if isinstance(i, np.ndarray) else i for i in index)
     chunks = tuple(tuple(c[i].tolist()) for c, i in zip(chunks_as_array, squeezed))
